@@ -477,8 +477,8 @@ theorem ind_initializer2 {f : Nat} (ih : Ind f) (ty : Ty) (toks : List ITok) (c1
     SmR (initializer2 (f+1) ty toks c1) (initializer2 (f+1) ty toks c2) := by
   simp only [initializer2]
   split
-  · split <;> sm_step ih
-  · split <;> sm_step ih
+  · split <;> first | (split <;> sm_step ih) | sm_step ih
+  · split <;> first | (split <;> sm_step ih) | sm_step ih
   · sm_step ih
   · sm_step ih
   · split <;> sm_step ih
